@@ -92,6 +92,9 @@ def evaluate(t, env, tables):
         return 1 - evaluate(t[1], env, tables)
     if k == "sel":
         return evaluate(t[2], env, tables) if evaluate(t[1], env, tables) else evaluate(t[3], env, tables)
+    if k in ("in", "notin"):
+        v = evaluate(t[1], env, tables)
+        return int((v in t[2]) == (k == "in"))
     raise AnalysisBroken("termeval: term %r" % (t,))
 
 
@@ -168,6 +171,10 @@ def compile_terms(terms, leaves, tables=None):
                 r = emit("int(%s %s %s)" % (a, sym, b))
         elif k == "not":
             r = emit("1 - %s" % go(t[1]))
+        elif k in ("in", "notin"):
+            r = emit("int((%s in %r) == %r)" % (go(t[1]), tuple(t[2]), k == "in"))
+        elif k == "sel":
+            r = emit("(%s) if (%s) else (%s)" % (go(t[2]), go(t[1]), go(t[3])))
         else:
             raise AnalysisBroken("termeval: term %r" % (t,))
         names[t] = r
